@@ -41,4 +41,38 @@ def neF (a b : Val) : Bool := !eqF a b
 
 end Val
 
+/-- a float cell computed exactly (the EMA kernels): NaN or a rational -/
+inductive FVal where
+  | nan
+  | q (r : Rat)
+deriving DecidableEq, Inhabited
+
+namespace FVal
+
+def ofInt (n : Int) : FVal := q n
+def isNan : FVal → Bool
+  | nan => true
+  | _ => false
+def neg : FVal → FVal
+  | q a => q (-a)
+  | nan => nan
+def add : FVal → FVal → FVal
+  | q a, q b => q (a + b)
+  | _, _ => nan
+def sub : FVal → FVal → FVal
+  | q a, q b => q (a - b)
+  | _, _ => nan
+def mul : FVal → FVal → FVal
+  | q a, q b => q (a * b)
+  | _, _ => nan
+/-- division; a zero divisor (IEEE: ±inf or NaN, not representable here) is rendered as NaN - the kernels never divide
+by zero (the divisor is `1 + weight` with a non-negative weight) -/
+def div : FVal → FVal → FVal
+  | q a, q b => if b = 0 then nan else q (a / b)
+  | _, _ => nan
+/-- true division of two integers -/
+def divII (a b : Int) : FVal := if b = 0 then nan else q ((a : Rat) / (b : Rat))
+
+end FVal
+
 end GV
